@@ -119,7 +119,7 @@ def present_pair(c, rng, disjoint=False):
     rng.shuffle(syms)
     d = dict(c)
     d.update({"A": A, "B": B, "syms": syms, "pres": [na, nb]})
-    if not disjoint and c.get("op") in ("incl", "union", "isect") and rng.random() < 0.06:
+    if not disjoint and c.get("op") in ("incl", "union", "isect", "bddincl") and rng.random() < 0.06:
         # the same object as both operands, or a copy sharing its storage (value: B = A)
         d["B"] = {"fin": list(A["fin"]), "rules": [list(r) for r in A["rules"]]}
         d["bmode"] = rng.choice(["alias", "copy"])
